@@ -139,7 +139,7 @@ def negative_queries(ctx, out):
     for _ in range(ctx.n(150, 15_000)):
         res, tempo = C01.rand_map(rng, rng.choice([1, 1, 2, 5]))
         be = C01.build_bpm_events(res, tempo)
-        for tick in (-1, -rng.randint(2, 10**6)):
+        for tick in (-1, -rng.randint(2, 10**6), -rng.choice(gen.LADDER[8:])):
             for name in ("timestamp_at_tick", "timestamp_at_tick_no_optimize_return"):
                 rp = {"op": "negq", "res": res, "tempo": tempo, "tick": tick, "api": name}
                 out.case("N" + fw.h(rp), True, None, tags=["negative-tick-" + str(min(len(tempo), 2))])
@@ -158,6 +158,14 @@ def queries(ctx, out):
     for _ in range(ctx.n(200, 20_000)):
         res, tempo = C01.rand_map(rng, 5)
         p = rng.randrange(len(tempo))
+        if rng.random() < 0.25:
+            # the zero tempo far into the chart: at the magnitudes where 32-bit ticks, doubles or "sane maximum" clamps give out
+            tempo = tempo + [(rng.choice(gen.ladder(rng, lo=max(tempo[-1][0] + 1, 2**31), hi=2**53 + 1, k=1)), 120000)]
+            p = len(tempo) - 1
+            try:
+                C01.build_bpm_events(res, tempo)
+            except OverflowError:
+                continue  # that far at that tempo is beyond what a timedelta holds: not a chart this property speaks about
         zt = [(t, (0 if i == p else n)) for i, (t, n) in enumerate(tempo)]
         rp = {"op": "query", "res": res, "tempo": zt, "tick": None}
         try:
@@ -176,7 +184,7 @@ def queries(ctx, out):
             for tick in (lo, lo + 1, lo + 1000):
                 twin.timestamp_at_tick(tick)
                 twin.timestamp_at_tick_no_optimize_return(tick)
-        except ValueError:
+        except (ValueError, OverflowError):
             pass
         for tick in (lo, lo + 1, lo + 1000, -1, -5):
             rp = {"op": "query", "res": res, "tempo": zt, "tick": tick}
